@@ -288,7 +288,7 @@ def validate(ctx, family, module, cfg, trace, env=None, name=None, timeout=1800,
     with open(trace) as f:
         for line in f:
             n += 1
-            if '"ev":"Reset"' in line:
+            if '"ev":"Reset"' in line or '"ev": "Reset"' in line:
                 resets += 1
     r = tlc(ctx, family, module, cfg, workers=workers, env=e, name=name or ("val-" + os.path.basename(trace)),
             timeout=timeout, jvm=jvm)
